@@ -6,6 +6,7 @@
 import Mfi.Model.Integr
 import Mfi.Lemmas.FxL
 import Mfi.Gen.Oracles
+import Mfi.Lemmas.ConstL
 
 namespace Mfi.Props.C20
 open Mfi Mfi.Fx Mfi.Integr
@@ -340,5 +341,10 @@ theorem adjusted_price_can_exceed_exact :
     (match scaleSupplies (6 * ONE) 3 9 with
      | some (l, c) => (usedRatio l c).bind (adjustI64 10000000000)
      | none => none) = some 20000011842 := by decide
+
+/-- scale_supplies / convert_decimals divide and multiply by rows of the table: that table is exactly the powers of ten 10^0 .. 10^23 as I80F48 (regenerated from the real
+    constants on every run; the model computes its own powers of ten and is diffed against the real functions across
+    ALL 24 decimals) -/
+theorem scaling_table_is_powers_of_ten : Mfi.Gen.EXP_10_I80F48 = Mfi.Fx.POW10FX := Mfi.ConstL.exp10_table_exact
 
 end Mfi.Props.C20
